@@ -487,7 +487,30 @@ def observe(torch, built, cfg, d, mean, c, y, params):
             return True, out2[1], dict(mean=out2[0])
     if not ok:
         return False, out, None
-    return True, out.detach(), None
+    aux = None
+    if op in ("elp", "lm") and not cfg.get("nan") and not bool(torch.isnan(y).any()):
+        # Noise.tla PolicyNeutral: with fully observed targets the value does not depend on settings.observation_nan_policy
+        from gpytorch import settings
+        fn = lik.expected_log_prob if op == "elp" else lik.log_marginal
+        for pol in POLICIES:
+            with settings.observation_nan_policy(pol):
+                ok2, out2 = core.guarded(lambda: fn(y, d, *params, **built.kw_vec))
+            if not ok2:
+                aux = dict(policy=pol, why="raises %s" % out2)
+                break
+            # (under 'mask' the multitask likelihoods return one term per observed (point, task) entry instead of one per point:
+            # the documented quantity is the sum over the event)
+            a2, a1 = out2.detach(), out.detach()
+            if a2.shape != a1.shape:
+                a2, a1 = a2.sum(-1), a1.sum(-1)
+            good, why = core.close(a2, a1, 1e-9, 1e-11)
+            if not good:
+                aux = dict(policy=pol, why=why)
+                break
+    return True, out.detach(), aux
+
+
+POLICIES = ("mask", "fill")      # Noise.tla Policies \ {"ignore"} (the default, under which the cell itself is evaluated)
 
 
 def run_cell(torch, cell, N, T, K, seed):
@@ -571,6 +594,9 @@ def run_cell(torch, cell, N, T, K, seed):
         res["drift"] = drift_msg(desc, code, real)
         fail("raises-" + obs.split(":")[0], "raised %s; documented R = %s with batch shape %s" % (obs, want or "0", list(exp_batch)))
         return res
+    if aux and aux.get("policy"):
+        return fail("value-depends-on-observation_nan_policy/" + aux["policy"],
+                    "with fully observed targets the result under observation_nan_policy(%r) differs from the default policy: %s" % (aux["policy"], aux["why"]))
     dec = decode(torch, obs, terms, tail, out_tail, value_of, atol, rtol, full_batch)
     obs_batch = tuple(obs.shape[:obs.dim() - out_tail])
     real = dict(terms=dec, batch=list(obs_batch), err="none")
